@@ -701,6 +701,41 @@ func checkC19(p *Prog, r *Report) {
 			rArm.Bad("silenceTimer:reset", token.NoPos, "the pause timer is never reset")
 		}
 	}
+	/* When not muted a plain write is written: what writePlain hands the
+	terminal is its argument (C03's rule) — a filter in there suppresses
+	output nobody asked to have muted. */
+	checkC03Sink(p, r, r.Rule("unmuted-written-whole", "when output is not muted writePlain writes what it was given (C03's identity rule, under this property's clause that output is suppressed only while muted)"))
+	/* Only the shell's output is marked Plain (and so muted, and counted as
+	output by the pause timer): a status line, a server error or a notice
+	sent as Plain would be swallowed while muted and would push un-muting
+	back. */
+	if plainF := p.Field("lib/opshell", "CLine", "Plain"); nil != plainF {
+		nPlain := 0
+		for _, fn := range p.Funcs() {
+			eachInstr(fn, func(i ssa.Instruction) {
+				st, ok := i.(*ssa.Store)
+				if !ok {
+					return
+				}
+				if fv, _ := fieldAddrOf(st.Addr); fv != plainF {
+					return
+				}
+				if b, isC := constBool(st.Val); isC && !b {
+					return
+				}
+				nPlain++
+				c := fnName(fn) + ":marks-Plain"
+				if nil != fn.Pkg && strings.HasSuffix(fn.Pkg.Pkg.Path(), "/"+iobPkg) {
+					rRead.OK(c, posOf(st), "the broker's output proxy (C03 decides what it carries)")
+				} else {
+					rRead.Bad(c, posOf(st), "a line which is not shell output is sent as Plain: it is dropped while output is muted, and resets the pause as if the shell had written")
+				}
+			})
+		}
+		if 0 == nPlain {
+			rRead.Unproven("CLine.Plain", token.NoPos, "nothing marks a line Plain")
+		}
+	}
 	/* Only shell output goes through the mute-aware write. */
 	for _, ci := range p.callersOf(wp) {
 		c := fnName(ci.Parent()) + "→writePlain"
